@@ -169,11 +169,18 @@ class Run:
 
     # ---------------------------------------------------------------- Kani
     def run_kani_units(self):
+        from concurrent.futures import ThreadPoolExecutor
+        todo = []
         for u in getattr(self.reg, "KANI_UNITS", []):
             hs = [h for h in u["harnesses"] if tier_ok(h.get("tier", "quick"), self.tier)]
-            if not hs:
-                continue
-            self._run_kani_unit(u, hs)
+            if hs:
+                todo.append((u, hs))
+        if not todo:
+            return
+        with ThreadPoolExecutor(max_workers=min(4, len(todo))) as ex:
+            futs = [ex.submit(self._run_kani_unit, u, hs) for (u, hs) in todo]
+            for f in futs:
+                f.result()
 
     def _prepare_ws(self, sc, u):
         injections = []
@@ -245,25 +252,46 @@ class Run:
                     o.kani_raw = r["raw"]
                     failed.append(o)
             # counterexamples for failures: concrete playback + native replay on this scratch copy
-            for o in failed:
-                self._kani_counterexample(sc, u, o)
+            if failed and not getattr(self, "no_cex", False):
+                self._kani_counterexamples(sc, u, failed)
         prune_first_party(os.path.join(CACHE_ROOT, self.prop))
 
-    def _kani_counterexample(self, sc, u, o):
-        self.say("  obligation %s FAILED in kani: %s" % (o.name, o.detail[:200]))
-        src, pout = kani_playback_source(self.prop, sc.ws, u["crate"], o.harness, timeout=u.get("playback_timeout", 1500))
-        payload = {"engine": "kani", "harness": o.harness, "crate": u["crate"], "unit": u["name"],
-                   "failed_checks": o.detail, "verifier_output": getattr(o, "kani_raw", "")[-4000:],
-                   "harness_file": u.get("playback_file") or u["injections"][-1]["file"]}
-        reproduced = None
-        if src:
-            payload["playback_test"] = src
-            payload["inputs"] = decode_playback(src)
-            reproduced, rout = native_playback(self.prop, sc.ws, u["crate"], payload["harness_file"], src)
-            payload["native_replay"] = {"reproduced": reproduced, "output": rout[-3000:]}
-        o.replay_payload = payload
-        o.reproduced = reproduced
-        o.has_input = bool(src)
+    def _kani_counterexamples(self, sc, u, failed):
+        from concurrent.futures import ThreadPoolExecutor
+        for o in failed:
+            self.say("  obligation %s FAILED in kani: %s" % (o.name, o.detail[:200]))
+        hfile = u.get("playback_file") or u["injections"][-1]["file"]
+
+        def get(o):
+            return o, kani_playback_source(self.prop, sc.ws, u["crate"], o.harness, timeout=u.get("playback_timeout", 1500))
+        with ThreadPoolExecutor(max_workers=min(8, len(failed))) as ex:
+            got = list(ex.map(get, failed))
+        tests = []
+        for o, (srcs, pout) in got:
+            o.replay_payload = {"engine": "kani", "harness": o.harness, "crate": u["crate"], "unit": u["name"],
+                                "failed_checks": o.detail, "verifier_output": getattr(o, "kani_raw", "")[-4000:],
+                                "harness_file": hfile}
+            o.reproduced = None
+            o.has_input = bool(srcs)
+            if srcs:
+                o.replay_payload["playback_tests"] = srcs
+                o.replay_payload["inputs"] = [decode_playback(t) for t in srcs]
+                tests += srcs
+        if tests:
+            add_playback_tests(sc.ws, hfile, tests)
+            for o, (srcs, pout) in got:
+                outs = []
+                for t in srcs or []:
+                    rep, rout = run_playback_test(self.prop, sc.ws, u["crate"], t)
+                    outs.append({"test": playback_name(t), "reproduced": rep, "output": rout[-2500:]})
+                    if rep:
+                        o.reproduced = True
+                        o.replay_payload["playback_test"] = t
+                        break
+                if srcs and o.reproduced is None:
+                    o.reproduced = False
+                    o.replay_payload["playback_test"] = srcs[0]
+                o.replay_payload["native_replay"] = outs
 
     # ---------------------------------------------------------------- scans
     def run_scans(self):
@@ -407,6 +435,7 @@ def run_selftest(prop, seed):
             s = s.replace(mu["from"], mu["to"], 1)
             open(p, "w").write(s)
             run = Run(prop, "quick", seed, repo=mdir, quiet=True, tag=prop + "-mut")
+            run.no_cex = True
             only = set(mu["expect"])
             # restrict to the units that contain the expected obligations (speed)
             run.reg = restrict_registry(run.reg, only)
@@ -485,7 +514,8 @@ def replay(prop, path):
     run = Run(prop, "quick", 0)
     with Scratch(prop + "-replay") as sc:
         run._prepare_ws(sc, u)
-        rep, out = native_playback(prop, sc.ws, u["crate"], d["harness_file"], d["playback_test"])
+        add_playback_tests(sc.ws, d["harness_file"], [d["playback_test"]])
+        rep, out = run_playback_test(prop, sc.ws, u["crate"], d["playback_test"])
     prune_first_party(os.path.join(CACHE_ROOT, prop))
     log(out[-1500:])
     if rep is True:
